@@ -3,7 +3,9 @@ package main
 import (
 	"flag"
 	"fmt"
+	"go/ast"
 	"go/token"
+	"strconv"
 	"go/types"
 	"path/filepath"
 	"sort"
@@ -202,4 +204,62 @@ func cmdSweep(args []string) int {
 		return 1
 	}
 	return 0
+}
+
+// patternObligations: the assumed contracts of the package-level regular
+// expressions (and the byte-slice constants the scanner compares lines with)
+// were written for specific literals, recorded as "pattern" clauses in
+// /verif/lib. A changed literal invalidates those assumptions: one obligation
+// per recorded literal compares it with the source.
+func (P *Program) patternObligations() []*Obligation {
+	actual := map[string]string{}
+	for _, p := range P.pkgs {
+		if !strings.HasPrefix(p.PkgPath, "github.com/maruel/panicparse") {
+			continue
+		}
+		for _, f := range p.Syntax {
+			for _, d := range f.Decls {
+				gd, ok := d.(*ast.GenDecl)
+				if !ok || gd.Tok != token.VAR {
+					continue
+				}
+				for _, sp := range gd.Specs {
+					vs, ok := sp.(*ast.ValueSpec)
+					if !ok || len(vs.Names) != 1 || len(vs.Values) != 1 {
+						continue
+					}
+					call, ok := vs.Values[0].(*ast.CallExpr)
+					if !ok || len(call.Args) != 1 {
+						continue
+					}
+					lit, ok := call.Args[0].(*ast.BasicLit)
+					if !ok || lit.Kind != token.STRING {
+						continue
+					}
+					val, err := strconv.Unquote(lit.Value)
+					if err != nil {
+						continue
+					}
+					actual[p.Name+"."+vs.Names[0].Name] = val
+				}
+			}
+		}
+	}
+	var names []string
+	for n := range P.contracts.Patterns {
+		names = append(names, n)
+	}
+	sort.Strings(names)
+	var obs []*Obligation
+	for _, n := range names {
+		want := P.contracts.Patterns[n]
+		fail := ""
+		if got, ok := actual[n]; !ok {
+			fail = fmt.Sprintf("the package-level literal %s no longer exists; the assumed contracts written for %q cannot be relied on", n, want)
+		} else if got != want {
+			fail = fmt.Sprintf("%s is now %q; the assumed contracts in /verif/lib were written for %q and have to be re-validated", n, got, want)
+		}
+		obs = append(obs, &Obligation{Name: "sweep/literal-unchanged:" + n, Class: "det", Props: []string{"C01", "C02", "C03", "C07", "C08", "C17", "C18"}, Func: n, static: true, staticFail: fail})
+	}
+	return obs
 }
